@@ -39,20 +39,32 @@ const (
 var c06ModeNames = []string{"content_length_truncated", "content_length_honest", "chunked_aborted", "eof_delimited"}
 
 type c06IndexServer struct {
-	mu    sync.Mutex
-	body  []byte
-	cut   int
-	mode  int
-	paths []string
-	srv   *httptest.Server
+	mu     sync.Mutex
+	body   []byte
+	cut    int
+	mode   int
+	status int // round 3: != 0 => answer with this status and the whole body
+	paths  []string
+	srv    *httptest.Server
 }
 
 func (s *c06IndexServer) ServeHTTP(w http.ResponseWriter, r *http.Request) {
 	s.mu.Lock()
-	body, cut, mode := s.body, s.cut, s.mode
+	body, cut, mode, status := s.body, s.cut, s.mode, s.status
 	s.paths = append(s.paths, r.URL.Path)
 	s.mu.Unlock()
 	w.Header().Set("Content-Type", "text/plain")
+	if status != 0 {
+		// (no Location header with 301: the client has nowhere to go and must
+		// judge the response itself; net/http drops the body of a 204)
+		w.Header().Set("Content-Length", strconv.Itoa(len(body)))
+		if status == 204 {
+			w.Header().Del("Content-Length")
+		}
+		w.WriteHeader(status)
+		w.Write(body)
+		return
+	}
 	switch mode {
 	case c06ModeSilentCL:
 		w.Header().Set("Content-Length", strconv.Itoa(cut))
@@ -87,7 +99,13 @@ func (s *c06IndexServer) ServeHTTP(w http.ResponseWriter, r *http.Request) {
 
 func (s *c06IndexServer) set(body []byte, cut, mode int) {
 	s.mu.Lock()
-	s.body, s.cut, s.mode = body, cut, mode
+	s.body, s.cut, s.mode, s.status = body, cut, mode, 0
+	s.mu.Unlock()
+}
+
+func (s *c06IndexServer) setStatus(status int, body []byte) {
+	s.mu.Lock()
+	s.body, s.cut, s.mode, s.status = body, len(body), c06ModeSilentCL, status
 	s.mu.Unlock()
 }
 
@@ -220,7 +238,33 @@ func TestVerifC06IndexTruncation(t *testing.T) {
 				calls++
 			}
 		}
-		labels := []string{"index_body", fmt.Sprintf("index_entries=%d", n)}
+		// Round 3: a non-200 status with an empty or plausible body is a failed
+		// fetch for every reader, whatever the body looks like.
+		statusCalls := 0
+		for _, status := range c06IndexStatuses {
+			for bc, b := range []string{"", body, "\n", http.StatusText(status) + "\n"} {
+				if status == 204 && b != "" {
+					continue
+				}
+				s.setStatus(status, []byte(b))
+				for _, rd := range readers {
+					got, err := rd.read()
+					calls++
+					statusCalls++
+					if err == nil {
+						t.Fatalf("%s accepted an index response with HTTP status %d (%s): returned %d entries, no error\nbody served %q",
+							rd.name, status, c06BodyNames[bc], got, b)
+					}
+				}
+			}
+		}
+		// harness self-check: the server is back to normal afterwards
+		s.set([]byte(body), len(body), c06ModeSilentCL)
+		if got, err := readers[0].read(); err != nil || got != n {
+			t.Fatalf("VERIF-INFRA: %s failed on the complete index after the status round: %d entries, %v", readers[0].name, got, err)
+		}
+		stats.InfoAdd("index_status_reader_calls", int64(statusCalls))
+		labels := []string{"index_body", fmt.Sprintf("index_entries=%d", n), "index_readers_given_every_non200_status"}
 		if strings.Contains(body, " 14435") && n > 0 {
 			labels = append(labels, "index_has_mtime")
 		}
